@@ -308,6 +308,14 @@ def _corner_shapes(acc, shard, nshards, seed, tier):
         if idx % nshards != shard:
             continue
         acc.check({"kind": "pair", "u": u, "v": v, "family": "corner", "transforms": ["permute-query"], "options": o}, _pair_nt, ["corner:upper-case-redirect-route"])
+    # '&amp;' written for '&' under every escape spelling of its letters and of the ';' (normalize_url repairs it on the raw text, canonicalize_url
+    # respells the escapes first)
+    for ent, tmpl, o in itertools.product(AMP_ENTITY_SPELLINGS, ["http://a.com/x?a=1%sb=2", "https://b.org/p?utm_source=t%sid=3%sz=1#frag", "http://a.com/?u=1%s%s"], optsets):
+        idx += 1
+        if idx % nshards != shard:
+            continue
+        u = tmpl.replace("%s", ent)
+        acc.check({"kind": "single", "u": u, "options": o}, lambda c: c.pop("_changed", True), ["corner:amp-entity-spelling"])
     # every scheme with every port spelling (own default, another scheme's default, empty, zero-padded): the three functions must agree on which
     # ports are droppable, and the platform routes must be recognized behind any port spelling
     for scheme, port, host, tail, o in itertools.product(SCHEME_FORMS, PORT_FORMS, ["h.com", "facebook.com", "www.youtube.com"],
@@ -329,6 +337,7 @@ SCHEME_FORMS = ["http://", "https://", "HTTP://", "ftp://", "ws://", "wss://", "
 PORT_FORMS = ["", ":", ":21", ":021", ":80", ":080", ":443", ":000443", ":8080", ":22", ":0", ":65535"]
 SORT_TIE_PAIRS = [("http://example.com/list?Tag=&tag", "http://example.com/list?tag&Tag="), ("http://a.com/?K&k=&K=", "http://a.com/?K=&k=&K"),
                   ("http://a.com/p?A=1&a=1&A", "http://a.com/p?A&a=1&A=1"), ("https://b.org/?x=&X&x", "https://b.org/?x&X&x=")]
+AMP_ENTITY_SPELLINGS = ["&amp;", "&AMP;", "&Amp;", "&amp%3B", "&amp%3b", "&%61mp;", "&%41mp;", "&a%6dp;", "&a%6Dp;", "&a%4Dp;", "&a%4dp;", "&am%70;", "&am%50;", "&%41%4D%50%3B", "&%61%6d%70%3b"]
 REDIRECT_CASE_PAIRS = [("http://a.com/URL?q=http://b.com&q=http://c.com", "http://a.com/URL?q=http://c.com&q=http://b.com"),
                        ("https://www.youtube.com/REDIRECT?q=b.com&q=c.com", "https://www.youtube.com/REDIRECT?q=c.com&q=b.com"),
                        ("http://a.com/Url/?q=https://b.com/x&q=https://c.com/x", "http://a.com/Url/?q=https://c.com/x&q=https://b.com/x")]
